@@ -89,6 +89,39 @@ LockRegs == { {LockF, LockG} }
 ScopeF == [ Base EXCEPT !.sel = <<"m","f">>, !.pos = <<"p">>, !.npd = 1, !.dflt = {<<"p", D("p")>>} ]
 ScopeConfs == {ScopeF}
 ScopeRegs == {{ScopeF}}
+------------------------------------------------------------------------------
+(* C04: references.  consumer f(p, q=...) -> producer g(x=...) -> producer h(x=...) *)
+AnyBind(c, v) == TRUE
+RefF == [ Base EXCEPT !.sel = <<"m","f">>, !.pos = <<"p","q">>, !.npd = 2, !.dflt = {<<"p", D("p")>>, <<"q", D("q")>>} ]
+RefG == [ Base EXCEPT !.sel = <<"m","g">>, !.pos = <<"x">>, !.npd = 1, !.dflt = {<<"x", D("x")>>}, !.api = "external" ]
+RefH == [ Base EXCEPT !.sel = <<"m","h">>, !.kind = "cls", !.pos = <<"x">>, !.npd = 1, !.dflt = {<<"x", D("x")>>}, !.api = "register" ]
+RefConfs == {RefF, RefG, RefH}
+RefRegs == {RefConfs}
+R(sel, sc, ev) == <<"ref", sel, sc, ev>>
+GCall == R(<<"m","g">>, <<>>, "call")
+GCallA == R(<<"m","g">>, <<"a">>, "call")
+GBare == R(<<"m","g">>, <<>>, "bare")
+GBareA == R(<<"m","g">>, <<"a">>, "bare")
+HCall == R(<<"m","h">>, <<>>, "call")
+HCallB == R(<<"m","h">>, <<"b">>, "call")
+\* every two-level nesting of list / tuple / dict around a literal or an evaluated reference
+Wrap(kind, v) == IF kind = "dict" THEN <<"dict", << <<L1, v>> >>>> ELSE <<kind, <<v, L2>>>>
+Nest2 == { Wrap(o, Wrap(i, leaf)) : o \in {"list", "tuple", "dict"}, i \in {"list", "tuple", "dict"}, leaf \in {L1, GCall} }
+RefValsF == Nest2 \cup { L1, GCall, GCallA, GBare, GBareA, HCall,
+              <<"list", <<GCall, L1, GCall>>>>,
+              <<"dict", << <<L1, <<"tuple", <<GCallA, HCallB>>>>>> >>>>,
+              <<"tuple", << <<"list", <<GBare>>>>, GCall >>>> }
+RefValsG == { L1, L2, HCall, HCallB, <<"list", <<HCall>>>> }
+RefValsH == { L1, L2 }
+RefFilter(c, v) ==
+  \/ c.sel = <<"m","f">> /\ v \in RefValsF
+  \/ c.sel = <<"m","g">> /\ v \in RefValsG
+  \/ c.sel = <<"m","h">> /\ v \in RefValsH
+RefBindVals == RefValsF \cup RefValsG \cup RefValsH
+RefBindValsQuick == (RefValsF \ Nest2) \cup RefValsG \cup RefValsH \cup { Wrap("tuple", Wrap("tuple", GCall)), Wrap("dict", Wrap("list", GCall)) }
+RefFilterQuick(c, v) == RefFilter(c, v) /\ v \in RefBindValsQuick
+NamesRefs == <<"p", "q", "x">>
+
 LockConfs == {LockF, LockG, LockH}
 LockFresh == {LockH}
 HooksBound == Len(hooks) <= 2
